@@ -51,6 +51,21 @@ fn prelude() -> Vec<E> {
         ),
         let_("x", E::Int(0)),
         let_("g", E::Int(0)),
+        // an object whose get / method / operator identify themselves: syntactically plain
+        // forms such as ov[2] or ov + 1 have effects through user-defined members
+        let_(
+            "ov",
+            E::Object(
+                None,
+                vec![
+                    Member::Method("get".into(), vec!["i".into()], call("tr", vec![bin("+", E::Int(900), var("i")), var("i")])),
+                    Member::Method("m1".into(), vec!["a".into()], call("tr", vec![bin("+", E::Int(800), var("a")), var("a")])),
+                    Member::Method("+".into(), vec!["a".into()], call("tr", vec![bin("+", E::Int(700), var("a")), var("a")])),
+                ],
+            ),
+        ),
+        let_("ea", E::Array(bx(E::Int(0)), bx(E::Int(0)))),
+        E::Fun("ft".into(), vec![], bx(call("tr", vec![E::Int(600), E::Int(6)]))),
     ]
 }
 
@@ -205,7 +220,33 @@ impl<'c> Shapes<'c> {
                     E::If(bx(o.remove(0)), bx(o.remove(0)), Some(bx(o.remove(0))))
                 }
             },
-            Ty::Arr => match self.c.pick(3) {
+            Ty::Arr => match self.c.pick(if d > 0 { 5 } else { 4 }) {
+                // NOTE: alternative numbering: 0..2 traced sizes, 3 plain effectful forms, 4 nested shape
+                3 => {
+                    let k1 = self.next_k();
+                    let n = self.c.pick(4) as i32;
+                    let init = match self.c.pick(7) {
+                        0 => index(var("ov"), E::Int(2)),
+                        1 => index(var("ov"), var("x")),
+                        2 => mcall(var("ov"), "m1", vec![E::Int(1)]),
+                        3 => bin("+", var("ov"), E::Int(1)),
+                        4 => call("ft", vec![]),
+                        5 => mcall(var("ov"), "get", vec![var("x")]),
+                        // reading an element of an EMPTY array fails - unless the size is 0 and
+                        // the initializer is (correctly) never evaluated
+                        _ => index(var("ea"), E::Int(0)),
+                    };
+                    E::Array(bx(call("tr", vec![E::Int(k1), E::Int(n)])), bx(init))
+                }
+                4 => {
+                    // the initializer IS a construct of every kind (not wrapped in a tracer):
+                    // its own operands identify themselves once per element
+                    let k1 = self.next_k();
+                    let n = self.c.pick(4) as i32;
+                    let ety = [Ty::Int, Ty::Bool, Ty::Null, Ty::Obj, Ty::Arr][self.c.pick(5)];
+                    let init = self.shape(ety, d - 1);
+                    E::Array(bx(call("tr", vec![E::Int(k1), E::Int(n)])), bx(init))
+                }
                 0 => {
                     // simple initializer: size once, initializer once
                     let k1 = self.next_k();
